@@ -183,7 +183,9 @@ pub fn run_c05(shard: &Shard) -> i32 {
     REF_CAP.store(if shard.quick() { 4000 } else { 20_000 }, std::sync::atomic::Ordering::Relaxed);
     case_loop(shard, u64::MAX, |_i, rng| {
         if shard.idx % 2 == 0 {
-            let p = Profile { with_dominance: true, small: rng.chance(1, 6), depth_free_bias: rng.chance(1, 3), medium_share: if shard.quick() { 0 } else { 1 }, large_share: if shard.idx % 16 == 14 { 8 } else { 0 }, ..Default::default() };
+            // (re-convergent instances: the same state at the same depth sits in the cut-sets of several open sub-problems, with
+            // different bounds - what a duplicate-free fringe has to coalesce correctly)
+            let p = Profile { with_dominance: true, small: rng.chance(1, 6), depth_free_bias: rng.chance(1, 3), reconvergent: rng.chance(1, 3), medium_share: if shard.quick() { 0 } else { 1 }, large_share: if shard.idx % 16 == 14 { 8 } else { 0 }, ..Default::default() };
             let spec = random_spec(rng, &p);
             with_family!(spec.family, seq_enumeration, &spec, PROP);
         } else {
